@@ -91,7 +91,8 @@ func (w *World) closureOf(f *types.Func) *ssa.Function {
 	if fn == nil {
 		return nil
 	}
-	if len(fn.AnonFuncs) > 0 {
+	// a factory: what it returns (a closure, or a named function of the package)
+	if _, isFactory := fn.Signature.Results().At(0).Type().Underlying().(*types.Signature); fn.Signature.Results().Len() == 1 && isFactory {
 		for _, b := range fn.Blocks {
 			if ret, ok := normalReturn(b); ok {
 				if mc, ok := retVal(ret, 0).(*ssa.MakeClosure); ok {
@@ -102,6 +103,8 @@ func (w *World) closureOf(f *types.Func) *ssa.Function {
 				}
 			}
 		}
+	}
+	if len(fn.AnonFuncs) > 0 {
 		return fn.AnonFuncs[0]
 	}
 	return fn
@@ -279,6 +282,17 @@ func ruleBPrim(w *World, r *Report) {
 			}
 		}
 		pos := w.pos(cl.Pos())
+		// the same judgement independent of how the implementation is factored
+		// (shared helper closures, the primitive passed as a function value):
+		// follow factory and closure with symbolic arguments and look at what is returned
+		if len(probs) > 0 {
+			if prod, ok := resultProducer[name]; ok && !strings.HasPrefix(prod, "@") && len(spec.mustNot) >= 0 {
+				if okI, how := w.primViaInterp(w.Prog.FuncValue(f), prod, spec.args[prod]); okI {
+					r.ok("B-PRIM", name, pos, fmt.Sprintf("%s() => %s: %s", name, f.Name(), how))
+					continue
+				}
+			}
+		}
 		if len(probs) == 0 {
 			r.ok("B-PRIM", name, pos, fmt.Sprintf("%s() => %s", name, f.Name()))
 		} else {
@@ -999,4 +1013,88 @@ func (w *World) resultFrom(v ssa.Value, prod string, seen map[ssa.Value]bool) bo
 		}
 	}
 	return false
+}
+
+// primViaInterp: the closure a factory returns, followed with symbolic
+// arguments (absint.go), returns on every completed path either a constant or
+// prim(...) applied to the string/number values of the factory's arguments in
+// the expected order (order: for each argument of prim the index of the
+// factory argument it must come from, -1 = any).
+func (w *World) primViaInterp(factory *ssa.Function, prim string, order []int) (bool, string) {
+	if factory == nil {
+		return false, ""
+	}
+	sel, ev := w.selectMethod(), w.evaluateMethod()
+	var hooks AHooks
+	hooks.Call = func(ai *AInterp, st *AState, site ssa.CallInstruction, callee *ssa.Function, args []AVal) (bool, AVal) {
+		com := site.Common()
+		if com.IsInvoke() && len(args) > 0 && args[0].Tag != "" {
+			base := args[0].Tag
+			idx := base[strings.Index(base, "arg"):]
+			idx = strings.TrimSuffix(idx, ")")
+			switch {
+			case com.Method.Name() == ev && strings.HasPrefix(base, "q:"):
+				return true, AVal{Kind: avUnknown, Tag: "val(" + idx + ")"}
+			case com.Method.Name() == sel:
+				return true, AVal{Kind: avUnknown, Tag: "node(" + idx + ")"}
+			case strings.HasPrefix(base, "node("):
+				return true, AVal{Kind: avUnknown, Tag: "str(" + idx + ")"}
+			case w.isQueryType(com.Value.Type()) && strings.HasPrefix(base, "q:"):
+				return true, AVal{Kind: avUnknown, Tag: base} // Clone() and the like
+			}
+		}
+		if callee != nil && w.inPkg(callee) && callee.Signature.Recv() == nil && len(args) == 1 && strings.HasPrefix(args[0].Tag, "q:") && callee.Signature.Results().Len() == 1 && w.isQueryType(callee.Signature.Results().At(0).Type()) {
+			return true, args[0] // the argument wrapper (a private clone of the argument query)
+		}
+		// the string conversion of a value
+		if _, _, str := w.conversionFns(); callee != nil && callee.String() == str && len(args) == 2 && args[1].Tag != "" {
+			idx := args[1].Tag[strings.Index(args[1].Tag, "arg"):]
+			return true, AVal{Kind: avUnknown, Tag: "str(" + strings.TrimSuffix(idx, ")") + ")"}
+		}
+		return false, AVal{}
+	}
+	ai := w.newInterp(hooks)
+	var fargs []AVal
+	for i := range factory.Params {
+		fargs = append(fargs, AVal{Kind: avUnknown, Tag: fmt.Sprintf("q:arg%d", i)})
+	}
+	n := 0
+	for _, fo := range ai.Exec(factory, fargs, nil, w.initState()) {
+		if fo.Cut || fo.Panicked || fo.Ret.Kind != avFunc {
+			return false, ""
+		}
+		cl := fo.Ret
+		var cargs []AVal
+		for range cl.Fn.Params {
+			cargs = append(cargs, aUnknown(nil))
+		}
+		for _, o := range ai.Exec(cl.Fn, cargs, cl.Bind, fo.St) {
+			if o.Cut {
+				return false, ""
+			}
+			if o.Panicked {
+				continue // a typed complaint about an argument: judged by X-DELIB
+			}
+			if o.Ret.isConst() || o.Ret.Kind == avNil {
+				continue
+			}
+			e := o.Ret.Expr
+			if e == nil || e.Call != prim {
+				return false, ""
+			}
+			for i, want := range order {
+				if want < 0 || i >= len(e.Args) {
+					continue
+				}
+				if !strings.HasSuffix(e.Args[i].Tag, fmt.Sprintf("(arg%d)", want)) {
+					return false, ""
+				}
+			}
+			n++
+		}
+	}
+	if n == 0 {
+		return false, ""
+	}
+	return true, fmt.Sprintf("followed with symbolic arguments, every non-constant result is %s(...) of the arguments in order (%d paths)", prim, n)
 }
